@@ -475,6 +475,20 @@ func planFlags(flags map[string]bool, p *planIn, o planObs) {
 			}
 		}
 	}
+	// a narrowed retry set (partial result) followed by a failing attempt that is retried again
+	byOwner := map[uint64][]att{}
+	for _, a := range o.atts {
+		byOwner[a.owner] = append(byOwner[a.owner], a)
+	}
+	for _, as := range byOwner {
+		for i := 0; i+2 < len(as); i++ {
+			a, b, c := as[i], as[i+1], as[i+2]
+			if !a.local && a.err == 0 && len(a.retry) > 0 && len(a.retry) < len(a.routes) && b.err != 0 &&
+				len(b.routes) == len(a.retry) && len(c.routes) <= len(b.routes) {
+				flags["narrowerr"] = true
+			}
+		}
+	}
 	if o.class == 4 {
 		flags["exhausted"] = true
 	}
@@ -532,7 +546,7 @@ func runPlanCase(in input) vh.Result {
 	return vh.Result{
 		Coq:     it.wrap(vh.App("CPlan", coqCfg(in.Cfg), vh.List(steps))),
 		Obs:     obs,
-		Class:   fmt.Sprintf("plan,retry=%v,exhausted=%v,cancel=%v,offline=%v,preserr=%v", flags["retry"], flags["exhausted"], flags["cancel"], flags["offline"], flags["preserr"] || flags["panic"]),
+		Class:   fmt.Sprintf("plan,retry=%v,narrow-then-error=%v,exhausted=%v,cancel=%v,offline=%v,preserr=%v", flags["retry"], flags["narrowerr"], flags["exhausted"], flags["cancel"], flags["offline"], flags["preserr"] || flags["panic"]),
 		Trivial: natts == 0,
 	}
 }
@@ -801,7 +815,7 @@ func runRt(in input) vh.Result {
 	return vh.Result{
 		Coq:     it.wrap(vh.App("CRt", coqCfg(in.Cfg), zInt(in.Cfg.Workers), vh.N(uint64(unattributed)), vh.List(rows))),
 		Obs:     obs,
-		Class:   fmt.Sprintf("rt,workers>1=%v,oc>1=%v,sameshard=%v,ctl=%v,retry=%v", in.Cfg.Workers > 1, in.Cfg.OC > 1 || in.Cfg.OC <= 0, maxShardLoad >= 2, ctlStr(flags), flags["retry"]),
+		Class:   fmt.Sprintf("rt,workers>1=%v,oc>1=%v,sameshard=%v,ctl=%v,retry=%v,narrow-then-error=%v", in.Cfg.Workers > 1, in.Cfg.OC > 1 || in.Cfg.OC <= 0, maxShardLoad >= 2, ctlStr(flags), flags["retry"], flags["narrowerr"]),
 		Trivial: accepted < 2 || natts == 0,
 	}
 }
